@@ -43,7 +43,7 @@ def run(ctx):
     if not q:
         fams.append(("c14-c04", progs.fam_c04(2)))
     for tag, fam in fams:
-        corecheck.run_family(ctx, binp, fam, tag, kinds=("isolation", "semantic", "panic"), nconc=4 if q else 8)
+        corecheck.run_family(ctx, binp, fam, tag, kinds=("isolation", "semantic", "panic"), nconc=4 if q else 8, env={"VERIF_TREECHECK": "off"})
     raw_cases(ctx, binp, "plain", 8)
     # race detector: subset of the families + raw corpus
     renv = {"GORACE": "exitcode=66 halt_on_error=1"}
